@@ -116,7 +116,7 @@ def execute(text, filename, max_paths, rng=None, modname='app.main'):
         except RecursionError:
             res.pruned['recursion'] = res.pruned.get('recursion', 0) + 1
             res.exhaustive = False
-        if S.pending is not None:
+        if S.pending is not None and not S.dead:
             dynrt._fail(S.pending)
         res.paths += 1
         res.max_decisions = max(res.max_decisions, len(S.arity))
